@@ -12,6 +12,7 @@ import socket
 import collections
 import threading
 import logging
+import functools
 import inspect
 import warnings
 import weakref
@@ -953,6 +954,17 @@ def _pyro_obj_to_auto_proxy(obj: Any) -> Any:
     return obj
 
 
+def _is_lazy_attribute(clazz: type, name: str) -> bool:
+    """
+    Is the name a descriptor of the class that only has a getter and isn't callable (functools.cached_property and the like)?
+    Reading such an attribute runs code of the class; it is neither a method nor a property, so it is never remotely accessible.
+    """
+    static = inspect.getattr_static(clazz, name, None)
+    kind = type(static)
+    return hasattr(kind, "__get__") and not hasattr(kind, "__set__") and not hasattr(kind, "__delete__") and not callable(static) \
+        and not isinstance(static, (classmethod, staticmethod, functools.partialmethod))
+
+
 def _get_attribute(obj: Any, attr: str) -> Any:
     """
     Resolves an attribute name to an object.  Raises
@@ -965,6 +977,8 @@ def _get_attribute(obj: Any, attr: str) -> Any:
     elif inspect.isdatadescriptor(getattr(type(obj), attr, None)):
         # a property is never a remotely callable method; don't evaluate it (that would run its getter)
         raise AttributeError("attempt to access property '%s' as a method" % attr)
+    elif _is_lazy_attribute(type(obj), attr):
+        raise AttributeError("attempt to access unexposed attribute '%s'" % attr)
     else:
         obj = getattr(obj, attr)
     if getattr(obj, "_pyroExposed", False):
@@ -1017,7 +1031,7 @@ def _get_exposed_members(obj: Any, only_exposed: bool = True) -> Dict[str, Set[s
     oneway = set()  # oneway methods
     attrs = set()  # attributes
     for m in dir(obj):      # also lists names inherited from super classes
-        if is_private_attribute(m):
+        if is_private_attribute(m) or _is_lazy_attribute(obj, m):
             continue
         v = getattr(obj, m)
         if inspect.ismethod(v) or inspect.isfunction(v) or inspect.ismethoddescriptor(v):
